@@ -132,6 +132,11 @@ fn read_req(paths: &[P]) -> Vec<u8> {
 }
 
 fn write_req(paths: &[P], timed: bool) -> Vec<u8> {
+    write_req_chunk(paths, timed, false)
+}
+
+/// one WriteRequest message; `more` = MoreChunkedMessages (all chunks of a chunked Write but the last)
+fn write_req_chunk(paths: &[P], timed: bool, more: bool) -> Vec<u8> {
     let mut b = vec![0x15, 0x28, 0x00, if timed { 0x29 } else { 0x28 }, 0x01, 0x36, 0x02];
     for p in paths {
         b.push(0x15);
@@ -142,6 +147,9 @@ fn write_req(paths: &[P], timed: bool) -> Vec<u8> {
         b.push(0x18);
     }
     b.push(0x18);
+    if more {
+        b.extend_from_slice(&[0x29, 0x03]); // MoreChunkedMessages = true
+    }
     b.push(0x18);
     b
 }
@@ -221,14 +229,20 @@ fn run_e2e(matter: &Matter<'_>, env: &e2e::Env, node: &'static Node<'static>, w:
         }
     }
     let sess = if w[3] == "p" { e2e::Sess::Pase { fab } } else { e2e::Sess::Case { fab, node_id: id, cats } };
+    // `T:D` (single message) or `T:D0,D1,..` (chunked write: D_k = clock advance before chunk k)
+    let mut delays: Vec<u64> = Vec::new();
     let timed = if w[6] == "-" {
         None
     } else {
         let mut it = w[6].split(':');
-        Some((it.next().and_then(|x| x.parse().ok()).unwrap_or(0u16), it.next().and_then(|x| x.parse().ok()).unwrap_or(0u64)))
+        let t = it.next().and_then(|x| x.parse().ok()).unwrap_or(0u16);
+        delays = it.next().unwrap_or("0").split(',').map(|x| x.parse().unwrap_or(0)).collect();
+        Some((t, delays.first().copied().unwrap_or(0)))
     };
-    let flag = w[7] == "1";
-    let paths = parse_paths(w[8]);
+    let flags: Vec<bool> = w[7].split('+').map(|f| f == "1").collect();
+    let flag = flags.first().copied().unwrap_or(false);
+    let chunk_paths: Vec<Vec<P>> = w[8].split('+').map(parse_paths).collect();
+    let paths = chunk_paths.first().cloned().unwrap_or_default();
     let emit: Vec<(u16, u32, u32, u8)> = if w[9] == "-" {
         Vec::new()
     } else {
@@ -243,13 +257,23 @@ fn run_e2e(matter: &Matter<'_>, env: &e2e::Env, node: &'static Node<'static>, w:
         "r" => (rs_matter::im::OpCode::ReadRequest, read_req(&paths)),
         "v" => (rs_matter::im::OpCode::ReadRequest, event_read_req(&paths)),
         "w" => (rs_matter::im::OpCode::WriteRequest, write_req(&paths, flag)),
+        "W" => (rs_matter::im::OpCode::WriteRequest, write_req_chunk(&paths, flag, chunk_paths.len() > 1)),
         _ => (rs_matter::im::OpCode::InvokeRequest, inv_req_refs(&paths, flag)),
     };
     e2e::SHARED.lock().unwrap().node = Some(node);
-    let req = e2e::Req { sess, timed, opcode, payload, emit };
+    // follow-up chunks of a chunked write: each with its own TimedRequest flag and paths
+    let mut more: Vec<(u64, Vec<u8>)> = Vec::new();
+    if kind == "W" {
+        for k in 1..chunk_paths.len() {
+            let f = flags.get(k).copied().unwrap_or(false);
+            let d = delays.get(k).copied().unwrap_or(0);
+            more.push((d, write_req_chunk(&chunk_paths[k], f, k + 1 < chunk_paths.len())));
+        }
+    }
+    let req = e2e::Req { sess, timed, opcode, payload, emit, more };
     let ans = match std::panic::catch_unwind(std::panic::AssertUnwindSafe(|| e2e::run_request(matter, env, &req))) {
         Ok(a) => a,
-        Err(_) => e2e::Answer { top: "panic".into(), resp: Vec::new(), effects: Vec::new() },
+        Err(_) => e2e::Answer { top: "panic".into(), resp: Vec::new(), effects: Vec::new(), more: Vec::new() },
     };
     out.stat(&format!("e2e_{}", kind), 1);
     out.stat(&format!("e2e_top_{}", ans.top.replace(' ', "_")), 1);
@@ -262,12 +286,22 @@ fn run_e2e(matter: &Matter<'_>, env: &e2e::Env, node: &'static Node<'static>, w:
             out.stat(&format!("e2e_{}_{}", kind, k), 1);
         }
     }
-    format!(
-        "{} # {} # {}",
-        ans.top,
-        if ans.effects.is_empty() { "-".to_string() } else { ans.effects.join(",") },
-        if ans.resp.is_empty() { "-".to_string() } else { ans.resp.join(" | ") }
-    )
+    let fmt_part = |top: &str, effects: &[String], resp: &[String]| {
+        format!(
+            "{} # {} # {}",
+            top,
+            if effects.is_empty() { "-".to_string() } else { effects.join(",") },
+            if resp.is_empty() { "-".to_string() } else { resp.join(" | ") }
+        )
+    };
+    let mut o = fmt_part(&ans.top, &ans.effects, &ans.resp);
+    for (top, resp, effects) in &ans.more {
+        out.stat(&format!("e2e_chunk_top_{}", top.replace(' ', "_")), 1);
+        out.stat("e2e_chunk_effects", effects.len() as u64);
+        o.push_str(" ## ");
+        o.push_str(&fmt_part(top, effects, resp));
+    }
+    o
 }
 
 fn fmt_o<T: ToString>(o: Option<T>) -> String {
@@ -819,13 +853,81 @@ fn gen_case(r: &mut Rng, out: &mut Out, nx: usize, case_id: u64) -> Vec<String> 
     if r.chance(2, 3) {
         let ne2e = r.range(1, 4);
         for _ in 0..ne2e {
-            let kind = *r.pick(&["r", "r", "r", "w", "w", "w", "i", "i", "i", "v", "v"]);
+            let kind = *r.pick(&["r", "r", "r", "w", "w", "w", "i", "i", "i", "v", "v", "W", "W", "W"]);
             let (fab, mode, id): (u64, &str, u64) = match r.below(10) {
                 0 | 1 => (0, "p", 1),
                 2 => (r.range(1, nf), "p", 1),
                 3 => (3, "c", 1),
                 _ => (r.range(1, nf), "c", *r.pick(&[1u64, 1, 2, 112233])),
             };
+            if kind == "W" {
+                // a chunked Write action: 2..3 WriteRequest messages, each with its own TimedRequest flag;
+                // timed-only attributes preferably in chunk >= 2; the clock moves between the chunks
+                let nch = r.range(2, 3) as usize;
+                let has_treq = r.chance(1, 2);
+                let t = *r.pick(&[50u64, 200, 1000]);
+                let mut delays: Vec<u64> = vec![r.below(t / 4)];
+                let mut sum = delays[0];
+                for _ in 1..nch {
+                    let d = match r.below(5) {
+                        0 => t + 1 + r.below(t),          // the window closes before this chunk
+                        1 => t.saturating_sub(sum),      // exactly at the instant the window closes
+                        2 => t.saturating_sub(sum) + 1,  // one millisecond late
+                        _ => r.below(t / 8 + 1),
+                    };
+                    sum += d;
+                    delays.push(d);
+                }
+                let honest = if has_treq { 1u8 } else { 0 };
+                let flags: Vec<u8> = (0..nch)
+                    .map(|k| match (k, r.below(4)) {
+                        (0, 0) => 1 - honest,
+                        (0, _) => honest,
+                        (_, 0) => 1,               // claimed
+                        (_, 1) => 0,               // not claimed
+                        (_, _) => honest,
+                    })
+                    .collect();
+                // (endpoint, cluster, attribute, timed-only) of the node
+                let mut all: Vec<(u16, u32, u32, bool)> = Vec::new();
+                for e in eps.iter() {
+                    for c in &e.clusters {
+                        for l in &c.attrs {
+                            all.push((e.id, c.id, l.id, l.access & Access::TIMED_ONLY.bits() != 0));
+                        }
+                    }
+                }
+                let timed_only: Vec<(u16, u32, u32, bool)> = all.iter().filter(|a| a.3).cloned().collect();
+                let mut chunks: Vec<String> = Vec::new();
+                for k in 0..nch {
+                    let np = *r.pick(&[1usize, 1, 2]);
+                    let mut ps: Vec<String> = Vec::new();
+                    for _ in 0..np {
+                        let pick = if k >= 1 && !timed_only.is_empty() && r.chance(2, 3) {
+                            Some(*r.pick(&timed_only))
+                        } else if !all.is_empty() && r.chance(5, 6) {
+                            Some(*r.pick(&all))
+                        } else {
+                            None
+                        };
+                        ps.push(match pick {
+                            Some((e, c, l, to)) => {
+                                if to { out.stat(if k >= 1 { "e2e_W_timed_only_in_later_chunk" } else { "e2e_W_timed_only_in_first_chunk" }, 1); }
+                                if r.chance(1, 8) { format!("*/{}/{}", c, l) } else { format!("{}/{}/{}", e, c, l) }
+                            }
+                            None => format!("{}/{}/{}", r.pick(&ENDPOINTS), r.pick(&CLUSTERS), r.below(5)),
+                        });
+                    }
+                    chunks.push(ps.join(";"));
+                }
+                let treq = if has_treq { format!("{}:{}", t, delays.iter().map(|d| d.to_string()).collect::<Vec<_>>().join(",")) } else { "-".to_string() };
+                out.stat(&format!("e2e_W_treq_{}", has_treq as u8), 1);
+                ops.push(format!(
+                    "e2e W {} {} {} - {} {} {} -",
+                    fab, mode, id, treq, flags.iter().map(|f| f.to_string()).collect::<Vec<_>>().join("+"), chunks.join("+")
+                ));
+                continue;
+            }
             let (treq, flag): (String, u8) = if kind == "w" || kind == "i" {
                 let t = *r.pick(&[50u64, 200, 1000]);
                 match r.below(9) {
@@ -977,7 +1079,7 @@ pub fn gen(a: &Args) -> String {
         let mut out = Out::default();
         let env = e2e::new_env();
         embassy_time::MockDriver::get().reset();
-        out.buf.push_str("#rule one case = an access-control configuration (fabrics, entries, group tables, built through the real API) + generated node metadata (0..4 endpoints x 0..3 clusters x 0..4 attributes / 0..3 commands with declared and random access bits, timed-only / fabric-scoped marks, partially disabled by the feature map; 1 in 8 nodes has duplicate ids) + requests run through the real expand_read / expand_write / expand_invoke with real request TLVs (also with the node composition replaced between the expander's calls, and end to end through the real InteractionModel with a logging handler, timed requests under virtual time, PASE sessions without fabric, event reads): 1..4 paths (concrete, each wildcard shape, absent ids, repeats), requester in {PASE with/without fabric, CASE, Group, missing fabric}, timed flag, read filter; non-trivial = the case produced both items and statuses\n");
+        out.buf.push_str("#rule one case = an access-control configuration (fabrics, entries, group tables, built through the real API) + generated node metadata (0..4 endpoints x 0..3 clusters x 0..4 attributes / 0..3 commands with declared and random access bits, timed-only / fabric-scoped marks, partially disabled by the feature map; 1 in 8 nodes has duplicate ids) + requests run through the real expand_read / expand_write / expand_invoke with real request TLVs (also with the node composition replaced between the expander's calls, and end to end through the real InteractionModel with a logging handler, timed requests under virtual time, PASE sessions without fabric, event reads, chunked writes with a TimedRequest flag per chunk and the clock moving between the chunks): 1..4 paths (concrete, each wildcard shape, absent ids, repeats), requester in {PASE with/without fabric, CASE, Group, missing fabric}, timed flag, read filter; non-trivial = the case produced both items and statuses\n");
         let n_cases: u64 = if thorough { 100000 } else { 10000 };
         for id in 1..=n_cases {
             let mut cr = r.fork();
